@@ -21,6 +21,7 @@ import (
 
 const vsyncPath = "github.com/deadsy/sdfx/verifrt/vsync"
 const vosPath = "github.com/deadsy/sdfx/verifrt/vos"
+const vatomicPath = "github.com/deadsy/sdfx/verifrt/vatomic"
 
 type edit struct {
 	start, end int
@@ -441,6 +442,9 @@ func (r *rw) special(n ast.Node) (string, bool) {
 			if id.Name == "close" && len(x.Args) == 1 && r.isChan(x.Args[0]) {
 				return r.render(x.Args[0]) + ".Close()", true
 			}
+			if (id.Name == "cap" || id.Name == "len") && len(x.Args) == 1 && r.isChan(x.Args[0]) {
+				return r.render(x.Args[0]) + map[string]string{"cap": ".Cap()", "len": ".Len()"}[id.Name], true
+			}
 		}
 		if sel, ok := x.Fun.(*ast.SelectorExpr); ok {
 			if id, ok := sel.X.(*ast.Ident); ok && id.Name == "runtime" && sel.Sel.Name == "NumCPU" {
@@ -519,7 +523,9 @@ func (r *rw) special(n ast.Node) (string, bool) {
 			}
 		}
 		if id, ok := x.X.(*ast.Ident); ok && id.Name == "atomic" {
-			r.refuse = append(r.refuse, fmt.Sprintf("%s: atomic.%s at %v is not modelled", r.name, x.Sel.Name, r.fset.Position(x.Pos())))
+			if !atomicModelled[x.Sel.Name] {
+				r.refuse = append(r.refuse, fmt.Sprintf("%s: atomic.%s at %v is not modelled", r.name, x.Sel.Name, r.fset.Position(x.Pos())))
+			}
 		}
 	}
 	return "", false
@@ -558,6 +564,12 @@ func (r *rw) generic(n ast.Node) string {
 	return b.String()
 }
 
+// atomicModelled lists the names of sync/atomic that rt/vatomic provides.
+var atomicModelled = map[string]bool{"Int32": true, "Int64": true, "Uint32": true, "Uint64": true, "Uintptr": true, "Bool": true, "Pointer": true, "Value": true,
+	"LoadInt32": true, "LoadInt64": true, "LoadUint32": true, "LoadUint64": true, "StoreInt32": true, "StoreInt64": true, "StoreUint32": true, "StoreUint64": true,
+	"SwapInt32": true, "SwapInt64": true, "SwapUint32": true, "SwapUint64": true, "AddInt32": true, "AddInt64": true, "AddUint32": true, "AddUint64": true,
+	"CompareAndSwapInt32": true, "CompareAndSwapInt64": true, "CompareAndSwapUint32": true, "CompareAndSwapUint64": true}
+
 func needs(f *ast.File) bool {
 	found := false
 	for _, im := range f.Imports {
@@ -595,6 +607,7 @@ func main() {
 	overlay := map[string]string{}
 	overlay[filepath.Join(*repo, "verifrt/vsync/vsync.go")] = filepath.Join(*rt, "vsync/vsync.go")
 	overlay[filepath.Join(*repo, "verifrt/vos/vos.go")] = filepath.Join(*rt, "vos/vos.go")
+	overlay[filepath.Join(*repo, "verifrt/vatomic/vatomic.go")] = filepath.Join(*rt, "vatomic/vatomic.go")
 	vosSet := map[string]bool{}
 	for _, f := range strings.Split(*vosFiles, ",") {
 		vosSet[f] = true
@@ -693,7 +706,8 @@ func main() {
 						case `"runtime"`:
 							hasRuntime = true
 						case `"sync/atomic"`:
-							refuse = append(refuse, r.name+": imports sync/atomic")
+							// sequentially consistent atomics, every operation a scheduling point (rt/vatomic)
+							txt = strings.Replace(txt, old, `atomic "`+vatomicPath+`"`, 1)
 						}
 					}
 					b.WriteString(txt)
